@@ -236,6 +236,14 @@ theorem accumulateInfo_sound {i : SInfo} {s : Shape} (h : i.γ s) : (accumulateI
     | fixedDim k => cases ho : i.size <;> simp only [ho, SizeK.γ] at hown ⊢ <;> omega
     | boundedDim k => cases ho : i.size <;> simp only [ho, SizeK.γ] at hown ⊢ <;> omega
     | dyn => cases ho : i.size <;> simp only [ho, SizeK.γ] at hown ⊢ <;> omega
+  | knownB n b =>
+    simp only
+    cases hsh : i.seen.shape with
+    | const l => have := hs.1; simp only [hsh, ShapeK.γ] at this; subst this; simp [SizeK.γ]
+    | clipped b => cases ho : i.size <;> simp only [ho, SizeK.γ] at hown ⊢ <;> omega
+    | fixedDim k => cases ho : i.size <;> simp only [ho, SizeK.γ] at hown ⊢ <;> omega
+    | boundedDim k => cases ho : i.size <;> simp only [ho, SizeK.γ] at hown ⊢ <;> omega
+    | dyn => cases ho : i.size <;> simp only [ho, SizeK.γ] at hown ⊢ <;> omega
   | any =>
     simp only
     cases hsh : i.seen.shape with
@@ -563,6 +571,7 @@ theorem bsz_sound {i : SInfo} {s : Shape} {n : Nat} (h : i.γ s) (hb : i.bsz = s
     · omega
     · omega
     · simp at hm
+    · omega
   · split at hb
     · rename_i l hl
       simp only [Option.some.injEq] at hb; subst hb
